@@ -126,19 +126,31 @@ func streamListen(c *ctx) {
 			dgs = append(dgs, eventDatagram(r, cl))
 			cls = append(cls, cl)
 		}
+		if n == 5 { // the same malformed datagram several times in a row: one error callback EACH
+			short := eventDatagram(r, "valid")[:8]
+			zero := eventDatagram(r, "serial-0")
+			dgs = [][]byte{short, append([]byte{}, short...), append([]byte{}, short...), zero, append([]byte{}, zero...), eventDatagram(r, "valid"), append([]byte{}, short...), append([]byte{}, short...)}
+			cls = []string{"short", "short-again", "short-again", "serial-0", "serial-0-again", "valid", "short", "short-again"}
+			k = len(dgs)
+		}
 		// the first runs: three valid events, an application callback that is still busy with the first one
 		// when the shutdown signal comes (events in flight at shutdown); all three are still delivered
 		// ... and once with a callback that stays busy for seconds after the signal (a bounded wait for the receive
 		// loop anywhere in the shutdown path would give up before the events in flight were handed over)
 		slow := n < 4
 		hold := 30 * time.Millisecond
+		longRun := n == 4 // 300 events behind a callback that is busy for a while with the first one
+		if longRun {
+			slow = true
+			hold = 60 * time.Millisecond
+		}
 		if n == 3 {
 			hold = 5500 * time.Millisecond
 			if c.scale > 1 {
 				hold = 11 * time.Second
 			}
 		}
-		if slow {
+		if slow && !longRun {
 			dgs, cls, k = [][]byte{}, []string{}, 3
 			for i := 0; i < 3; i++ {
 				dgs = append(dgs, eventDatagram(r, "valid"))
